@@ -217,6 +217,12 @@ OUT_SHAPES = {
     "single": (lambda df: df, None, lambda out: out),
     "tuple": (lambda df: (0, df), 1, lambda out: out[1]),
     "list": (lambda df: [df, 0], 0, lambda out: out[0]),
+    # the same element designated from the end / in the middle: equivalent designations must behave identically
+    "tuple_neg1": (lambda df: ({"m": 1}, 0, df), -1, lambda out: out[2]),
+    "tuple_pos2": (lambda df: ({"m": 1}, 0, df), 2, lambda out: out[2]),
+    "tuple_neg2": (lambda df: (0, df, "z"), -2, lambda out: out[1]),
+    "tuple_first_neg": (lambda df: (df, 0, "z"), -3, lambda out: out[0]),
+    "list_neg1": (lambda df: [0, df], -1, lambda out: out[1]),
     "dict": (lambda df: {"k": df, "z": 0}, "k", lambda out: out["k"]),
     "callable": (lambda df: {"k": df}, "callable", lambda out: out["k"]),
 }
@@ -263,6 +269,10 @@ def _explore_check_output():
                                             f"got {_snap(pick(res))} expected {_snap(parsed)}")
                         if type(res) is not type(ret(frame)):
                             viol.setdefault(("check_output.container_kind_kept", f"{tag}:{type(ret(frame)).__name__}->{type(res).__name__}"), "")
+                        elif _snap(res) != _snap(ret(parsed)):
+                            # the wrapper returns exactly what the function returned, with only the designated element replaced by its parsed form
+                            viol.setdefault(("check_output.rest_of_output_untouched", f"{tag}|{optk}|{fname}"),
+                                            f"got {str(_snap(res))[:300]} expected {str(_snap(ret(parsed)))[:300]}")
     return viol, n
 
 
@@ -302,6 +312,36 @@ def _explore_check_io():
                         viol.setdefault(("check_io.body_receives_parsed_object", f"{optk}|{f1}"), "")
                     if _snap(res) != _snap(p2):
                         viol.setdefault(("check_io.caller_receives_parsed_output", f"{optk}|{f2}"), f"{_snap(res)} vs {_snap(p2)}")
+    return viol, n
+
+
+def _explore_check_io_outputs():
+    """check_io(out=(getter, schema)) on container outputs: same oracle as check_output"""
+    import pandera as pa
+
+    viol, n = {}, 0
+    frames = _frames()
+    for oname, (ret, getter, pick) in OUT_SHAPES.items():
+        if getter in (None, "callable"):
+            continue
+        for fname, frame in frames.items():
+            n += 1
+            schema = _schema()
+
+            @pa.check_io(out=(getter, schema))
+            def f(df, ret=ret):
+                return ret(df)
+
+            want_status, parsed = _direct(schema, frame, {})
+            got_status, res = _invoke(f, (frame.copy(),), {}, False)
+            if got_status.startswith("exc:"):
+                viol.setdefault(("check_io.no_foreign_exception", f"out:{oname}|{got_status}"), f"{res!r}")
+                continue
+            if want_status != got_status:
+                viol.setdefault(("check_io.outcome", f"out:{oname}|{fname}|{want_status}->{got_status}"), "")
+            elif want_status == "ok" and _snap(res) != _snap(ret(parsed)):
+                viol.setdefault(("check_io.rest_of_output_untouched", f"out:{oname}|{fname}"),
+                                f"got {str(_snap(res))[:300]} expected {str(_snap(ret(parsed)))[:300]}")
     return viol, n
 
 
@@ -396,7 +436,7 @@ def _explore_check_types():
 
 def plan(tier, seed):
     cases = [{"part": "check_input", "shape": s} for s in SHAPES]
-    cases += [{"part": "check_output"}, {"part": "check_io"}, {"part": "check_types"}]
+    cases += [{"part": "check_output"}, {"part": "check_io"}, {"part": "check_io_outputs"}, {"part": "check_types"}]
     return {"cases": cases, "exhaustive": True,
             "bounds": {"signature_shapes": list(SHAPES), "options": OPTS, "frames": ["ok", "coercible", "bad_first", "bad_last", "two_bad"],
                        "output_shapes": list(OUT_SHAPES)},
@@ -412,6 +452,8 @@ def run_case(case):
         viol, n = _explore_check_output()
     elif p == "check_io":
         viol, n = _explore_check_io()
+    elif p == "check_io_outputs":
+        viol, n = _explore_check_io_outputs()
     else:
         viol, n = _explore_check_types()
     v = [{"clause": c, "key": k, "detail": d[:600]} for (c, k), d in viol.items()]
